@@ -16,6 +16,7 @@ MODE = {}
 
 
 EXTRA = {}
+CHECK_ARGS = {}  # extra bin/check arguments of a mutant (e.g. the tier / variant it needs)
 
 
 def mut(name, prop, path, old, new, desc, first=False, all=False, extra=None):
@@ -379,7 +380,7 @@ def run(name, runs, budget):
             return {"mutant": name, "error": "extra pattern not found in " + p2}
         open(pp, "w").write(s2.replace(o2, n2, 1))
     t0 = time.time()
-    cmd = [os.path.join(VERIF, "bin", "check"), prop, "--repo", scratch, "--no-evidence"]
+    cmd = [os.path.join(VERIF, "bin", "check"), prop, "--repo", scratch, "--no-evidence"] + CHECK_ARGS.get(name, [])
     if runs:
         cmd += ["--runs", str(runs)]
     if budget:
@@ -411,6 +412,17 @@ mut("c18_revert_add_sched_keeps_scheduler", "C18", "thread.c",
                     ABTI_ASSERT(ret == ABT_SUCCESS);
                     (void)ret;
 """, "", "reverts fix 2ad1c5c: a failed ABT_pool_add_sched frees an automatic scheduler")
+
+mut("c18_revert_create_many_entry_after_check", "C18", "thread.c",
+    """            /* TODO: Release threads that have been already created. */
+            ABTI_CHECK_ERROR(abt_errno);
+            newthread_list[i] = ABTI_ythread_get_handle(p_newthread);
+""", """            newthread_list[i] = ABTI_ythread_get_handle(p_newthread);
+            /* TODO: Release threads that have been already created. */
+            ABTI_CHECK_ERROR(abt_errno);
+""", "reverts fix ad9f300: the entry of a ULT that could not be created is filled from an unset local (shows in the lazy-stack variant V3: thorough tier)")
+CHECK_ARGS["c18_revert_create_many_entry_after_check"] = ["--tier", "thorough", "--variants", "V3", "--budget", "200"]
+
 
 def main():
     ap = argparse.ArgumentParser()
